@@ -8,6 +8,7 @@ import (
 	"bytes"
 	"errors"
 	"fmt"
+	defn "github.com/named-data/ndnd/fw/defn"
 	"io"
 	"net"
 	"os"
@@ -114,7 +115,7 @@ func (StreamEngine) Generate(prop string, r *kit.Rand, tier string) *kit.Scenari
 	if r.Chance(0.3) {
 		c.Target = "std"
 	} else if r.Chance(0.05) {
-		c.Target = kit.Pick(r, []string{"tcp", "unix", "udp"})
+		c.Target = kit.Pick(r, []string{"tcp", "unix", "udp", "tcpout"})
 		if r.Chance(0.5) {
 			c.FaceMtu = kit.Pick(r, []int{128, 576, 1200, 1500, 4000})
 		}
@@ -197,7 +198,7 @@ func (StreamEngine) Generate(prop string, r *kit.Rand, tier string) *kit.Scenari
 		}
 		c.ErrWithData = r.Bool()
 	}
-	if r.Chance(0.3) {
+	if r.Chance(0.3) || (c.Target == "tcpout" && r.Chance(0.8)) {
 		c.EofAt = r.Range(0, sum)
 	}
 	return sc
@@ -421,6 +422,82 @@ func (e StreamEngine) Run(t *testing.T, ctx *kit.Ctx, sc *kit.Scenario[StreamCon
 		// run makes no progress, kills the worker and confirms it from the seed (3.8)
 		<-ls.Done()
 		wire.close()
+	case "tcpout":
+		// a permanent outgoing TCP face whose connection breaks in the middle of the stream (reset at EofAt) and
+		// that reconnects: the new connection carries the stream again from the block that was cut; the receiver
+		// must hand on every block exactly once - nothing of the old connection's partial block may survive
+		ln, err := net.Listen("tcp4", "127.0.0.1:0")
+		if err != nil {
+			ctx.Probe("loopback-sockets-unavailable")
+			res.Steps = len(blocks)
+			return res
+		}
+		port := ln.Addr().(*net.TCPAddr).Port
+		tr, err := face.MakeUnicastTCPTransport(defn.MakeTCPFaceURI(4, "127.0.0.1", uint16(port)), nil, face.PersistencyPermanent)
+		if err != nil {
+			panic("harness: MakeUnicastTCPTransport: " + err.Error())
+		}
+		var mu sync.Mutex
+		ls := face.MakeVerifRecorderLinkService(tr, func(f []byte) { mu.Lock(); got = append(got, f); mu.Unlock() })
+		ls.Run(nil)
+		ctx.Probe("receive-loop-of-real-tcpout-transport")
+		want = blocks // all of them, whatever the cut
+		writeAll := func(c net.Conn, b []byte) {
+			c.SetWriteDeadline(time.Now().Add(60 * time.Second))
+			for off, i := 0, 0; off < len(b); i++ {
+				n := reads[i%len(reads)]
+				if n < 1 {
+					n = 1
+				}
+				if n > len(b)-off {
+					n = len(b) - off
+				}
+				if _, err := c.Write(b[off : off+n]); err != nil {
+					return
+				}
+				off += n
+			}
+		}
+		waitBlocks := func(n int) {
+			for deadline := time.Now().Add(20 * time.Second); time.Now().Before(deadline); {
+				mu.Lock()
+				have := len(got)
+				mu.Unlock()
+				if have >= n {
+					return
+				}
+				time.Sleep(200 * time.Microsecond)
+			}
+		}
+		ln.(*net.TCPListener).SetDeadline(time.Now().Add(20 * time.Second))
+		c1, err := ln.Accept()
+		if err != nil {
+			panic("harness: the outgoing TCP face did not connect: " + err.Error())
+		}
+		restart, whole := 0, 0 // offset of the block that the cut falls into; number of blocks before it
+		for o := 0; whole < len(blocks) && o+len(blocks[whole]) <= cut; whole++ {
+			o += len(blocks[whole])
+			restart = o
+		}
+		if cut < len(stream) {
+			ctx.Fault("connection-reset-mid-stream")
+			writeAll(c1, stream[:cut])
+			waitBlocks(whole) // everything complete so far has been read; then the connection dies
+			c1.(*net.TCPConn).SetLinger(0)
+			c1.Close()
+			ln.(*net.TCPListener).SetDeadline(time.Now().Add(30 * time.Second))
+			c2, err := ln.Accept()
+			if err != nil {
+				panic("harness: the permanent TCP face did not reconnect within 30 s: " + err.Error())
+			}
+			writeAll(c2, stream[restart:])
+			c2.Close()
+		} else {
+			writeAll(c1, stream)
+			c1.Close()
+		}
+		ln.Close()
+		<-ls.Done() // (a receive loop that never ends is a hang, see above)
 	case "udp":
 		// the UDP transport reads its socket through the same stream framing: every datagram is one read() result,
 		// and a block may span datagrams. One datagram is in flight at a time (the next is sent once every block
